@@ -21,7 +21,8 @@ NE == Len(T.events)
 ColSet == {T.cols[i] : i \in 1..Len(T.cols)}
 FilesFs(stem, files, tds) ==
    LET I == {i \in 1..Len(files) : files[i].td \in tds} IN
-   [n \in {Nm(stem, files[i].td, files[i].lvl) : i \in I} |-> SeqSet(files[CHOOSE i \in I : Nm(stem, files[i].td, files[i].lvl) = n].ids)]
+   \* (the driven histories use text files only: ext = "csv")
+   [n \in {Nm(stem, files[i].td, files[i].lvl, "csv") : i \in I} |-> SeqSet(files[CHOOSE i \in I : Nm(stem, files[i].td, files[i].lvl, "csv") = n].ids)]
 Apply(f, e) ==
    CASE e.op = "put"  -> Del(f, {n \in DOMAIN f : n.stem = e.stem /\ n.td \in {"t", "d"}}) @@ FilesFs(e.stem, e.files, {"t", "d"})
      [] e.op = "drop" -> Del(f, {n \in DOMAIN f : n.stem = e.stem /\ n.td \in {"t", "d"}})
